@@ -73,6 +73,13 @@ func fmtPublished(ts time.Time) string {
 	return ts.Format(time.RFC3339Nano)
 }
 
+func refLimitC11(f *Fedi) int {
+	if f.Big {
+		return 1500
+	}
+	return 260
+}
+
 func mergeRef(sources []feedSource, limit int) []RefItem {
 	pos := make([]int, len(sources))
 	var out []RefItem
@@ -107,6 +114,14 @@ func scenC11(r *Run) {
 		ns = 9 + t.Draw(20)
 		f.MaxPages, f.MaxItems = 1, 3
 		r.S.Probe("c11_wide_feed")
+	}
+	big := !wide && t.Chance(1, 16)
+	if big {
+		f.Big = true
+		if ns > 2 {
+			ns = 2
+		}
+		r.S.Probe("c11_big_sources_and_requests")
 	}
 	// servers differ in timestamp precision: whole seconds, or fractions of a second
 	subsec := t.Chance(1, 3)
@@ -164,12 +179,12 @@ func scenC11(r *Run) {
 				f.serveWebfinger(host, fmt.Sprintf("u%d", n), actorID)
 				src.input = fmt.Sprintf("@u%d@%s", n, host)
 			}
-			src.ref, src.finite = l.Reference(260)
+			src.ref, src.finite = l.Reference(refLimitC11(f))
 			src.descr = "actor " + l.Describe()
 		case 1: // a bare collection of notes
 			l := f.DrawLayout(host, func(remote bool) CItem { return f.noteItem(host, nextTime(), remote) })
 			src.input = l.RootURL
-			src.ref, src.finite = l.Reference(260)
+			src.ref, src.finite = l.Reference(refLimitC11(f))
 			src.descr = "collection " + l.Describe()
 		case 2: // a source that cannot be resolved
 			src.input = []string{"https://" + host + "/missing", "@nobody@" + host, "https://nonexistent.example/a/u1", "@u1@nonexistent.example"}[t.Draw(4)]
@@ -191,7 +206,7 @@ func scenC11(r *Run) {
 		inputs[i] = s.input
 		descr[i] = s.input + " = " + s.descr
 	}
-	ref := mergeRef(sources, 200)
+	ref := mergeRef(sources, map[bool]int{false: 200, true: 1400}[big])
 	allFinite := true
 	for _, s := range sources {
 		allFinite = allFinite && s.finite
@@ -203,7 +218,7 @@ func scenC11(r *Run) {
 
 	var sp *splicer.Splicer
 	task := r.Spawn("open", func() { sp = splicer.NewSplicer(inputs) })
-	r.Drive(func() bool { return task.Done }, hugeHorizon, 40000)
+	r.Drive(func() bool { return task.Done }, hugeHorizon, 400000)
 	if !task.Done || sp == nil {
 		if len(r.S.Violations()) == 0 {
 			r.Violate("C11", "M-live", "newsplicer-did-not-return", "splicer.NewSplicer did not return")
@@ -225,7 +240,7 @@ func scenC11(r *Run) {
 		var out []pub.Tangible
 		var co pub.Container
 		task := r.Spawn(name, func() { out, co, _ = c.Harvest(n, off) })
-		r.Drive(func() bool { return task.Done }, hugeHorizon, 40000)
+		r.Drive(func() bool { return task.Done }, hugeHorizon, 600000)
 		if !task.Done {
 			r.Violate("C11", "M-live", "harvest-did-not-return", fmt.Sprintf("feed request %s (n=%d, offset=%d) did not return", name, n, off))
 			return nil, nil, false
@@ -262,6 +277,9 @@ func scenC11(r *Run) {
 			break
 		}
 		n := uint(t.Weighted(1, 3, 3, 2, 2, 1, 1)) // 0..6
+		if big && t.Chance(3, 4) {
+			n = uint([]int{40, 99, 100, 101, 120, 150, 200, 260}[t.Draw(8)] + t.Draw(3))
+		}
 		off := uint(0)
 		if t.Chance(1, 6) {
 			off = uint(t.Draw(4))
@@ -311,7 +329,7 @@ func scenC11(r *Run) {
 			c := cont
 			t1 := r.Spawn(fmt.Sprintf("h%dc1", i), func() { o1, _, _ = c.Harvest(n, off) })
 			t2 := r.Spawn(fmt.Sprintf("h%dc2", i), func() { o2, _, _ = c.Harvest(n, off) })
-			r.Drive(func() bool { return t1.Done && t2.Done }, hugeHorizon, 40000)
+			r.Drive(func() bool { return t1.Done && t2.Done }, hugeHorizon, 1200000)
 			if !t1.Done || !t2.Done {
 				r.Violate("C11", "M-live", "concurrent-harvest-did-not-return", "two concurrent requests for the same feed position did not return")
 				return
